@@ -270,6 +270,59 @@ fn run(op: &str, a: &[&str]) -> String {
             let (s, r) = p.cbrt_rem();
             format!("ok {:x} {:x}", s as u128, r as u128)
         }),
+        // every value of `cnt` classes of the high half of u32 (65536 values each) starting at K0
+        "psweep32" => {
+            let (k0, cnt) = (u128_of(a[1]) as u64, u128_of(a[2]) as u64);
+            let cube = a[0] == "cbrt";
+            let mut bad = 0u64;
+            for n in (k0 << 16)..((k0 + cnt) << 16).min(1 << 32) {
+                let n = n as u32;
+                if cube {
+                    let (c, r) = n.cbrt_rem();
+                    let c = c as u64;
+                    if !(c * c * c + r as u64 == n as u64 && (c + 1).pow(3) > n as u64) { bad += 1; }
+                } else {
+                    let (s, r) = n.sqrt_rem();
+                    let s = s as u64;
+                    if !(s * s + r as u64 == n as u64 && (s + 1) * (s + 1) > n as u64) { bad += 1; }
+                }
+            }
+            format!("ok {:x}", bad)
+        }
+        // class sweep (round 5): the real u64 routines at the critical points of `cnt` classes of the high half starting
+        // at X0 - both class ends and the perfect powers (and their predecessors) inside; answer = number of wrong results
+        "psweep64" => {
+            let (x0, cnt) = (u128_of(a[1]) as u64, u128_of(a[2]) as u64);
+            let cube = a[0] == "cbrt";
+            let mut bad = 0u64;
+            let root = |n: u64| -> u64 {
+                let mut r = if cube { (n as f64).cbrt() as u64 } else { (n as f64).sqrt() as u64 };
+                let pw = |r: u64| if cube { (r as u128).pow(3) } else { (r as u128).pow(2) };
+                while pw(r) > n as u128 { r -= 1; }
+                while pw(r + 1) <= n as u128 { r += 1; }
+                r
+            };
+            let mut check = |n: u64, bad: &mut u64| {
+                let want = root(n);
+                let (got, rem) = if cube { let (c, r) = n.cbrt_rem(); (c as u64, r) } else { let (s, r) = n.sqrt_rem(); (s as u64, r) };
+                let pw = if cube { (want as u128).pow(3) } else { (want as u128).pow(2) };
+                if got != want || rem as u128 != n as u128 - pw { *bad += 1; }
+            };
+            for x in x0..x0.saturating_add(cnt).min(1 << 32) {
+                let (lo, hi) = (x << 32, (x << 32) | 0xffff_ffff);
+                check(lo, &mut bad);
+                check(hi, &mut bad);
+                let (rl, rh) = (root(lo), root(hi));
+                let mut m = rl + 1;
+                while m <= rh && m < rl + 4 {
+                    let p = if cube { m * m * m } else { m * m };
+                    check(p - 1, &mut bad);
+                    check(p, &mut bad);
+                    m += 1;
+                }
+            }
+            format!("ok {:x}", bad)
+        }
         // ------------------------------------------------------------------ logarithms
         "uilog" => format!("ok {:x}", ubig(a[0]).ilog(&ubig(a[1]))),
         "iilog" => format!("ok {:x}", ibig(a[0]).ilog(&ubig(a[1]))),
